@@ -77,9 +77,16 @@ func newBackend() *recBackend {
 }
 
 func (b *recBackend) handle(w http.ResponseWriter, r *http.Request) {
-	body, _ := io.ReadAll(r.Body)
+	var body []byte
+	discarded := 0
+	if r.Header.Get("X-Verif-Discard") == "1" {
+		n, _ := io.Copy(io.Discard, r.Body) // uploads far larger than memory should hold
+		discarded = int(n)
+	} else {
+		body, _ = io.ReadAll(r.Body)
+	}
 	tag := r.Header.Get("X-Verif-Tag")
-	br := &backendReq{Method: r.Method, URI: r.RequestURI, Host: r.Host, Proto: r.Proto, Header: r.Header.Clone(), BodyLen: len(body), BodySum: sum(body), Trailer: r.Trailer.Clone()}
+	br := &backendReq{Method: r.Method, URI: r.RequestURI, Host: r.Host, Proto: r.Proto, Header: r.Header.Clone(), BodyLen: len(body) + discarded, BodySum: sum(body), Trailer: r.Trailer.Clone()}
 	b.mu.Lock()
 	b.n++
 	if tag == "" {
